@@ -1620,9 +1620,17 @@ func ruleTSCAN(p *Program, r *Reporter) {
 		}
 		var call *ssa.Call
 		if bo, ok := cond.(*ssa.BinOp); ok && (bo.Op == token.NEQ || bo.Op == token.EQL) {
-			if c, ok := bo.Y.(*ssa.Const); ok && c.IsNil() {
+			isZeroConst := func(v ssa.Value) bool {
+				c, ok := v.(*ssa.Const)
+				if !ok {
+					return false
+				}
+				// nil, or the empty string (a helper that hands back the first error text)
+				return c.IsNil() || c.Value != nil && c.Value.Kind() == constant.String && constant.StringVal(c.Value) == ""
+			}
+			if isZeroConst(bo.Y) {
 				call, _ = bo.X.(*ssa.Call)
-			} else if c, ok := bo.X.(*ssa.Const); ok && c.IsNil() {
+			} else if isZeroConst(bo.X) {
 				call, _ = bo.Y.(*ssa.Call)
 			}
 			if bo.Op == token.EQL {
@@ -1692,6 +1700,9 @@ func errorScanHelper(g *ssa.Function, errFld *types.Var) (polarity bool, ok bool
 		}
 		if c.Value.Kind() == constant.Bool {
 			return !constant.BoolVal(c.Value), true
+		}
+		if c.Value.Kind() == constant.String {
+			return constant.StringVal(c.Value) == "", true
 		}
 		return false, false
 	}
